@@ -110,7 +110,7 @@ esl_gam_cdf(double x, double mu, double lambda, double tau)
 
   if (y <= 0.) return 0.;
 
-  esl_stats_IncompleteGamma(tau, y, &val, NULL);
+  if (esl_stats_IncompleteGamma(tau, y, &val, NULL) != eslOK) return eslNaN; /* <val> was not set */
   return val;
 }
 
@@ -129,7 +129,7 @@ esl_gam_logcdf(double x, double mu, double lambda, double tau)
 
   if (y <= 0.) return -eslINFINITY;
 
-  esl_stats_IncompleteGamma(tau, y, &val, NULL);
+  if (esl_stats_IncompleteGamma(tau, y, &val, NULL) != eslOK) return eslNaN; /* <val> was not set */
   return log(val);
 }
 
@@ -147,7 +147,7 @@ esl_gam_surv(double x, double mu, double lambda, double tau)
 
   if (y <= 0.) return 1.0;
 
-  esl_stats_IncompleteGamma(tau, y, NULL, &val);
+  if (esl_stats_IncompleteGamma(tau, y, NULL, &val) != eslOK) return eslNaN; /* <val> was not set */
   return val;
 }
 
@@ -170,7 +170,7 @@ esl_gam_logsurv(double x, double mu, double lambda, double tau)
 
   if (y <= 0.) return 0.;
 
-  esl_stats_IncompleteGamma(tau, y, NULL, &val);
+  if (esl_stats_IncompleteGamma(tau, y, NULL, &val) != eslOK) return eslNaN; /* <val> was not set */
   return log(val);
 }
 
